@@ -696,6 +696,13 @@ macro_rules! flavour_impl {
                 }
                 if op == "g_remove" {
                     let r = self.graph.as_mut().unwrap().remove(&ky(&a[1]));
+                    // with a slot number the caller keeps the node that remove() hands out (as its handle of that number)
+                    if let (Some(n), Some(slot)) = (r.as_ref(), a.get(2).and_then(|x| x.as_u64())) {
+                        self.nodes[slot as usize] = n.clone();
+                        drop(r);
+                        let n = self.nodes[slot as usize].clone();
+                        return self.node_obs(&n);
+                    }
                     return match r { Some(n) => self.node_obs(&n), None => Value::Null };
                 }
                 let g = self.graph.as_ref().unwrap();
